@@ -11,7 +11,7 @@ def main(run: Run) -> int:
     from ahbicht.validation import validation as V
 
     run.encodes(V.validate_data_element_valuepool, V.validate_segment)
-    jobs = valcommon.jobs("C17", run.tier, ("valuepool_step",), trees=(0, 3, 2))
+    jobs = valcommon.jobs("C17", run.tier, ("valuepool_step", "dispatch_step"), trees=(0, 3, 2))
     feats = lambda r, rep: {"part": r["fn"], "nothing_offered_not_forbidden": "nothing" in (rep.get("what") or "") and "forbidden" in (rep.get("what") or "")}  # noqa: E731
     for r, j in zip(xh.run_jobs(run, "vf.harness.val_harness", jobs), jobs):
         xh.default_verdict(run, r, feats, bound=j["bound"])
